@@ -169,7 +169,7 @@ var harnesses = map[string]*Harness{
 var checks = []Check{
 	{
 		Property: "C11", Harness: "h6codec", Level: "exploration",
-		Quick:        tierCfg{budget: 150, maxRuns: 1500, shrink: 200},
+		Quick:        tierCfg{budget: 150, maxRuns: 3000, shrink: 200},
 		Thorough:     tierCfg{budget: 900, shrink: 1500},
 		RunTimeoutS:  120,
 		Rule:         "one evaluation = 3-10 generated values of the serialisable protocol types (reflection-driven generator that respects the fixed-length invariants of the codec: validator / core / epoch / queue counts, one-of unions, 15-bit import indices; maps filled in tape order; integers biased to the boundaries of the compact encoding) plus fuzz-protocol messages, encoded once by a private fresh encoder, then encoded / hashed / decoded / re-encoded 2-8 times by each of 1-4 concurrent tasks through the shared encoder pool under a tape-chosen interleaving (yield in every loop of the encoder), pool hand-out order (newest, oldest, random, lost objects) and map iteration order (sorted, reversed, random); non-trivial = at least 2 tasks; distinct = multiset of value types",
@@ -184,7 +184,7 @@ var checks = []Check{
 	},
 	{
 		Property: "C14", Harness: "h4chain", Level: "exploration",
-		Quick:      tierCfg{budget: 150, maxRuns: 1500, shrink: 20},
+		Quick:      tierCfg{budget: 150, maxRuns: 3000, shrink: 20},
 		Thorough:   tierCfg{budget: 900, shrink: 60},
 		MaxWorkers: 6, RunTimeoutS: 120,
 		Rule:         "one evaluation = one real fuzz-protocol session (SetState with a generated genesis export and ancestry, ImportBlock with 1-3 author-built blocks incl. tickets/preimages/disputes, GetState, State, StateRoot, PeerInfo, Error) whose frames are damaged in flight 6-15 times (bit flips, byte insert/delete, length-prefix edits to 0/1/2/2^31/2^32-1/+1000, truncation + close, garbage frame, unknown message type, 0xFF runs over inner length prefixes, union tags / option flags / boolean octets at offsets found by differential encoding set to 0..17 and the extremes) and delivered in tape-chosen fragments to the real stream reader Message.ReadFrom; non-trivial = session of >= 6 frames; distinct = decision tape hash",
@@ -349,7 +349,7 @@ var checks = []Check{
 	},
 	{
 		Property: "C10", Harness: "h3acc", Level: "fault_enumeration",
-		Quick:        tierCfg{budget: 150, maxRuns: 150, shrink: 300},
+		Quick:        tierCfg{budget: 150, maxRuns: 300, shrink: 300},
 		Thorough:     tierCfg{budget: 900, shrink: 3000},
 		Rule:         "one evaluation = one generated accumulate program (1-40 host calls drawn from write/read/info/lookup/new/upgrade/transfer/eject/query/solicit/forget/yield/provide/checkpoint/bless/assign/designate/gas/unknown, ending in halt with 0/32/other-length output, trap or a gas-burning loop) on a generated partial state, executed with unlimited gas and then with a tape-chosen gas limit (one run in ten: every limit 0..need+1); non-trivial = at least 3 observed host calls; distinct = hash of (program shape, observed call results)",
 		Real:         []string{"PVM.Psi_A end to end: standard-program initialiser, block engine, every accumulate and general host call (real functions reached through wrappers placed in the exported PVM.AccumulateOmegas slice), checkpoint/collapse functions, deep copies", "internal/service_account threshold/footprint helpers", "internal/utilities/merklization raw key constructors"},
@@ -363,9 +363,9 @@ var checks = []Check{
 	},
 	{
 		Property: "C08", Harness: "h3acc", Level: "exploration",
-		Quick:        tierCfg{budget: 150, maxRuns: 700, shrink: 300},
+		Quick:        tierCfg{budget: 150, maxRuns: 1500, shrink: 300},
 		Thorough:     tierCfg{budget: 900, shrink: 3000},
-		Arms:         []Arm{{Harness: "h2sched", Workers: 4, Quick: tierCfg{budget: 150, maxRuns: 120, shrink: 100}, Thorough: tierCfg{budget: 1200, shrink: 1000}}},
+		Arms:         []Arm{{Harness: "h2sched", Workers: 4, Quick: tierCfg{budget: 150, maxRuns: 250, shrink: 100}, Thorough: tierCfg{budget: 1200, shrink: 1000}}},
 		Rule:         "as C10; after every completed host call the exact (big-integer) sum of all balances plus deferred-transfer amounts in context X is compared with the sum before it, and the exact per-call movement is checked (transfer: amount into a deferred transfer; creation: the new account's threshold out of the creator; ejection: the ejected balance to the caller; CASH: nothing changes; other calls: no balance changes); amounts/lengths are aimed at balance-threshold +-1, total balance +-1 and 2^32/2^64 edges",
 		Real:         []string{"PVM.Psi_A end to end: standard-program initialiser, block engine, every accumulate and general host call (real functions reached through wrappers placed in the exported PVM.AccumulateOmegas slice), checkpoint/collapse functions, deep copies", "internal/service_account threshold/footprint helpers", "internal/utilities/merklization raw key constructors"},
 		Stub:         []string{"guest programs are generated by the harness assembler (straight-line load_imm_64/ecalli groups ending in halt/trap/gas-burning loop); " + vrfStub + " (compile only)"},
@@ -378,9 +378,9 @@ var checks = []Check{
 	},
 	{
 		Property: "C09", Harness: "h3acc", Level: "exploration",
-		Quick:        tierCfg{budget: 150, maxRuns: 700, shrink: 300},
+		Quick:        tierCfg{budget: 150, maxRuns: 1500, shrink: 300},
 		Thorough:     tierCfg{budget: 900, shrink: 3000},
-		Arms:         []Arm{{Harness: "h2sched", Workers: 4, Quick: tierCfg{budget: 150, maxRuns: 120, shrink: 100}, Thorough: tierCfg{budget: 1200, shrink: 1000}}},
+		Arms:         []Arm{{Harness: "h2sched", Workers: 4, Quick: tierCfg{budget: 150, maxRuns: 250, shrink: 100}, Thorough: tierCfg{budget: 1200, shrink: 1000}}},
 		Rule:         "as C10; after every completed host call, for every account, the change of the recorded item/octet counts must equal the change of the counts derived from its dictionary entries plus attributable raw key-value entries; a call returning FULL must leave the whole context byte-identical; the threshold reported by info must equal max(0, B_S+B_I*i+B_L*o-f) in big integers whenever that value fits 64 bits (arms with recorded item counts around 2^32/10 and 2^32, octets near 2^64 and gratis offsets around the raw threshold)",
 		Real:         []string{"PVM.Psi_A end to end: standard-program initialiser, block engine, every accumulate and general host call (real functions reached through wrappers placed in the exported PVM.AccumulateOmegas slice), checkpoint/collapse functions, deep copies", "internal/service_account threshold/footprint helpers", "internal/utilities/merklization raw key constructors"},
 		Stub:         []string{"guest programs are generated by the harness assembler (straight-line load_imm_64/ecalli groups ending in halt/trap/gas-burning loop); " + vrfStub + " (compile only)"},
@@ -393,7 +393,7 @@ var checks = []Check{
 	},
 	{
 		Property: "C04", Harness: "h3acc", Level: "fault_enumeration",
-		Quick:        tierCfg{budget: 150, maxRuns: 50, shrink: 300},
+		Quick:        tierCfg{budget: 150, maxRuns: 120, shrink: 300},
 		Thorough:     tierCfg{budget: 900, shrink: 3000},
 		Rule:         "as C10, with one run in three an exhaustive sweep over every gas limit 0..need+1 of a short program; checked: each host call charges exactly 10 (transfer additionally its gas argument on success), the instructions between two observed calls charge exactly 1 each, with limit g the run stops out-of-gas exactly where the cost model says, the observed calls and contexts are a prefix of the unlimited run's, reported usage is in [0, limit] (also for limits >= 2^63) and equals limit minus remaining gas on halt",
 		Real:         []string{"PVM.Psi_A end to end: standard-program initialiser, block engine, every accumulate and general host call (real functions reached through wrappers placed in the exported PVM.AccumulateOmegas slice), checkpoint/collapse functions, deep copies", "internal/service_account threshold/footprint helpers", "internal/utilities/merklization raw key constructors"},
@@ -407,7 +407,7 @@ var checks = []Check{
 	},
 	{
 		Property: "C16", Harness: "h5cache", Level: "exploration",
-		Quick:        tierCfg{budget: 150, maxRuns: 2000, shrink: 400},
+		Quick:        tierCfg{budget: 150, maxRuns: 4000, shrink: 400},
 		Thorough:     tierCfg{budget: 900, shrink: 3000},
 		Rule:         "one evaluation = one history (<= 80 quick / 200 thorough steps) over an evolving entry set on one live ChainState: add / remove / change value keeping length / flip embedded<->hashed / re-insert removed key / clear cache / reset instance / change capacity / compute root (cached vs uncached, sometimes in permuted order); keys share long bit prefixes; capacity knob in {1,2,3,7,64,600}; non-trivial = >= 3 root computations over a pool of >= 3 keys; distinct = decision tape hash",
 		Real:         []string{"internal/blockchain.ChainState.ComputeStateRootWithCache / ClearKeyLevelCache / ResetInstance, KeyLevelCache", "internal/utilities/merklization (cached and uncached walks)"},
